@@ -6,7 +6,7 @@ sys.path.insert(0, os.path.join(VERIF, "bin"))
 from vprops import PROPS, NOT_CLAIMED  # noqa
 
 hook_commits = subprocess.run(["git", "-C", "/repo", "log", "--format=%H %s"], capture_output=True, text=True).stdout.splitlines()
-hook_commits = [l.split()[0] for l in hook_commits if "verif-tagged" in l]
+hook_commits = [l.split()[0] for l in hook_commits if "verif-tagged" in l or "verif-scheduled" in l]
 
 checks = []
 for pid in sorted(PROPS):
